@@ -379,6 +379,10 @@ func ResponsePlacement(sp *spec.Spec, m *spec.Method, ex *rt.Exchange, v *Verdic
 		return
 	}
 	rrt, _ := sp.Resolve(m.Result.Type)
+	if rrt != nil && (rrt.Kind == spec.String || rrt.Kind == spec.Bytes) {
+		textBodyPlacement(rrt.Kind, pickResponse(m, oc.Result), oc.Result, w, v)
+		return
+	}
 	if rrt == nil || rrt.Kind != spec.Object {
 		return
 	}
@@ -471,4 +475,35 @@ func placementTags(headerArray bool) []string {
 		return []string{"header-array-multi"}
 	}
 	return nil
+}
+
+// textBodyPlacement judges a String/Bytes result announced with a text media type: the body is the value
+// itself (not its JSON spelling) and the Content-Type header announces the designed type.
+func textBodyPlacement(kind string, resp *spec.HTTPResponse, result any, w *rt.WireResp, v *Verdict) {
+	if resp == nil || resp.ContentType == "" || result == nil {
+		return
+	}
+	mt := strings.ToLower(strings.TrimSpace(strings.SplitN(resp.ContentType, ";", 2)[0]))
+	if !(strings.HasPrefix(mt, "text/") || strings.HasSuffix(mt, "+txt") || strings.HasSuffix(mt, "+html")) {
+		return
+	}
+	got := strings.ToLower(strings.Join(w.Header["Content-Type"], ","))
+	if !strings.HasPrefix(got, mt) {
+		v.add("result-wire-placement:body:"+kind+":text-content-type", "response announces Content-Type %q, the design fixes %q", got, resp.ContentType)
+		return
+	}
+	var want []byte
+	switch kind {
+	case spec.String:
+		want = []byte(vtree.Text(result))
+	default:
+		b, ok := vtree.BytesOf(result)
+		if !ok {
+			return
+		}
+		want = b
+	}
+	if string(w.Body) != string(want) {
+		v.add("result-wire-placement:body:"+kind+":text-body", "text response body is %q, the result value is %q", trunc(string(w.Body), 120), trunc(string(want), 120))
+	}
 }
